@@ -554,8 +554,17 @@ def inline_helpers(P, fn, max_depth=3):
                         depth[entry] = max_depth
                         targets.append([str(n_), entry])
                         call_t["args"].append({"c": {"l": loff, "p": []}})
-                    j["blocks"][head]["term"] = {"k": "switch", "op": {"c": {"l": nd, "p": []}}, "targets": targets,
-                                                 "otherwise": callb}
+                    direct = re.match(r"core::ops::function::Fn(Once|Mut)?::call(_once|_mut)?$", t["callee"].get("path") or "")
+                    if direct and len(targets) == 1:
+                        # `f()` itself: the closure runs exactly once - straight line instead of a nondeterministic loop
+                        j["blocks"][head]["term"] = {"k": "goto", "target": targets[0][1]}
+                        for bi in range(head + 2, len(j["blocks"])):
+                            tt = j["blocks"][bi]["term"]
+                            if tt and tt.get("k") == "goto" and tt.get("target") == head and bi != targets[0][1]:
+                                tt["target"] = callb
+                    else:
+                        j["blocks"][head]["term"] = {"k": "switch", "op": {"c": {"l": nd, "p": []}}, "targets": targets,
+                                                     "otherwise": callb}
         i += 1
     if not inlined:
         j2 = dict(j)
